@@ -49,7 +49,7 @@ def mk(kinds, names=("n1",), bad=(), procs=("p1",), cap=1, udp=False, tcp=True, 
                 AllowCancel="TRUE" if cancel else "FALSE", T0=t0, T1=t1, T2=t2, TS=ts)
 
 
-TTLK = ["A1", "A2", "Bnx", "Bfail", "Aba"]
+TTLK = ["A1", "A2", "B2", "Bnx", "Bfail", "Aba"]
 UDPK = ["A2", "B2", "Bnx", "Bfail", "Atc", "Btc", "OA2", "OB2", "Fid", "Aq0", "Bra0", "Short", "Aba"]
 UDPT = dict(t0=400, t1=500, t2=1000, ts=1000)      # real-time replays: TTLs far from the instants the replay can reach
 
@@ -63,11 +63,11 @@ DESIGN = {
         "conc": mk(["A1", "B2", "Bfail", "Aba"], procs=("p1", "p2"), maxlook=3, maxadv=1, deltas=(6,), cancel=True),
     },
     "thorough": {
-        "parse": mk(ALLSRV, bad=("bad1",), maxlook=3, maxadv=2, cancel=True),
-        "udp": mk(UDPK + ["A1", "Anx", "Bnds"], udp=True, maxlook=3, maxadv=2, deltas=(6, 20), cancel=True),
+        "parse": mk(ALLSRV, bad=("bad1",), maxlook=2, maxadv=3, cancel=True),
+        "udp": mk(UDPK + ["A1", "Anx", "Bnds"], udp=True, maxlook=2, maxadv=2, deltas=(6, 20), cancel=True),
         "udponly": mk(UDPK, udp=True, tcp=False, maxlook=3, maxadv=2, deltas=(6, 20), cancel=True),
-        "lru": mk(TTLK + ["B2"], names=("n1", "n2", "n3"), cap=2, maxlook=4, maxadv=2, deltas=(5, 6, 25)),
-        "lru1": mk(TTLK, names=("n1", "n2"), bad=("bad1",), cap=1, maxlook=4, maxadv=3, deltas=(5, 6, 25)),
+        "lru": mk(TTLK, names=("n1", "n2", "n3"), cap=2, maxlook=4, maxadv=2, deltas=(6, 25)),
+        "lru1": mk(TTLK, names=("n1", "n2"), bad=("bad1",), cap=1, maxlook=3, maxadv=3, deltas=(5, 6, 25)),
         "unbounded": mk(TTLK, names=("n1", "n2"), cap=0, maxlook=3, maxadv=2, deltas=(5, 6, 25)),
         "conc": mk(["A1", "A2", "B2", "Bnx", "Bfail", "Aba"], procs=("p1", "p2"), maxlook=3, maxadv=2, deltas=(6, 25), cancel=True),
     },
@@ -91,11 +91,11 @@ REPLAY = {
     },
     "thorough": {
         "parse": (mk(ALLSRV, bad=("bad1",), maxlook=1, maxadv=2, deltas=(5, 20), cancel=True), "TestReplayTcp", None),
-        "stale": (mk(["A1", "Anx", "B1", "Bfail", "Aq0", "Bba", "Abau", "Short"], maxlook=2, maxadv=2, deltas=(6, 20)), "TestReplayTcp", None),
-        "ttl": (mk(TTLK + ["B2", "Ands"], maxlook=2, maxadv=2, deltas=(5, 6, 25)), "TestReplayTcp", None),
-        "lru": (mk(["A1", "Bfail", "Aba"], names=("n1", "n2", "n3"), cap=2, maxlook=4, maxadv=1, deltas=(6,)), "TestReplayTcp", None),
+        "stale": (mk(["A1", "Anx", "B1", "Bfail", "Aq0", "Bba", "Abau", "Short", "Atc", "Bnds"], maxlook=2, maxadv=2, deltas=(6, 20)), "TestReplayTcp", None),
+        "ttl": (mk(TTLK + ["Ands", "Afail", "B1"], maxlook=2, maxadv=2, deltas=(5, 6, 25)), "TestReplayTcp", None),
+        "lru": (mk(["A1", "B2", "Bfail", "Aba"], names=("n1", "n2", "n3"), cap=2, maxlook=4, maxadv=1, deltas=(6,)), "TestReplayTcp", None),
         "lru1": (mk(["A1", "Bfail", "Aba"], names=("n1", "n2"), bad=("bad1",), cap=1, maxlook=3, maxadv=2, deltas=(6, 25)), "TestReplayTcp", None),
-        "conc": (mk(["A1", "B2", "Bfail", "Aba"], procs=("p1", "p2"), maxlook=3, maxadv=1, deltas=(6,), cancel=True), "TestReplayTcp", None),
+        "conc": (mk(["A1", "B2", "Bnx", "Bfail", "Aba"], procs=("p1", "p2"), maxlook=2, maxadv=1, deltas=(6,), cancel=True), "TestReplayTcp", None),
         "udp": (mk(UDPK, udp=True, maxlook=2, maxadv=0, cancel=True, **UDPT), "TestReplayUdp", None),
         "udponly": (mk(UDPK, udp=True, tcp=False, maxlook=2, maxadv=0, **UDPT), "TestReplayUdp", None),
     },
@@ -117,7 +117,8 @@ SIMULATE = {
                              deltas=(1, 5, 6, 20, 25, 55), cancel=True), 1500, 60, 6000)],
 }
 LRU = {
-    "quick": [dict(Keys=sset(["k1", "k2", "k3"]), Vals="{1,2}", Cap=c, MaxOps=5) for c in (1, 2)],
+    "quick": [dict(Keys=sset(["k1", "k2", "k3"]), Vals="{1,2}", Cap=c, MaxOps=5) for c in (1, 2)] +
+             [dict(Keys=sset(["k1", "k2", "k3", "k4"]), Vals="{1}", Cap=3, MaxOps=5)],
     "thorough": [dict(Keys=sset(["k1", "k2", "k3"]), Vals="{1,2}", Cap=c, MaxOps=6) for c in (1, 2, 3)] +
                 [dict(Keys=sset(["k1", "k2", "k3", "k4"]), Vals="{1}", Cap=3, MaxOps=7)],
 }
@@ -140,8 +141,9 @@ def measured(binary, seed):
 def flags(c, as_built):
     k = dict(FailTtl=max(c["FailTtl"], 0), Timeout=c["TimeoutMs"] // 1000)
     if as_built:
-        k["FailOverwrites"] = "TRUE" if c["LifeA5ThenFail"] > 5 else "FALSE"
-        k["SoaOnlyIfUnset"] = "TRUE" if c["LifeA60ThenSoa10"] > 10 else "FALSE"
+        # an expiry rule is "as written" (not the minimum) iff the lifetime depends on the arrival order
+        k["FailOverwrites"] = "TRUE" if c["LifeA5ThenFail"] > c["LifeFailThenA5"] else "FALSE"
+        k["SoaOnlyIfUnset"] = "TRUE" if c["LifeA60ThenSoa10"] > c["LifeSoa10ThenA60"] else "FALSE"
     else:
         k["FailOverwrites"] = k["SoaOnlyIfUnset"] = "FALSE"
     return k
@@ -185,6 +187,8 @@ def crash_or_absorb(v, res, out, rc, what):
 
 def run_replay(v, binary, doc, seed):
     rp = doc["replay"]
+    if isinstance(rp.get("replay"), dict):      # the driver's finding wraps the replayable part
+        rp = rp["replay"]
     if rp.get("lru"):
         inp = {"behaviours": [{"steps": rp["steps"]}], "seed": seed, "params": {"cap": rp["cap"], "keys": rp.get("keys") or []}}
         res, out, rc = vlib.run_driver(binary, "TestLru", inp, 120)
@@ -245,7 +249,7 @@ def run(tier, seed, replay):
         return vlib.tlc(SPEC, "MCResolver", "MCResolver.cfg", consts, workers=workers, timeout=timeout, edges=emit,
                         heap="8g" if big else "4g", **kw)
 
-    tmo = 3000 if big else 900
+    tmo = 6000 if big else 2400
     for name, cfg in part(list(DESIGN[tier].items()), "design"):
         jobs["design/" + name] = ex.submit(tlc, name, cfg, kd, "TtlHonoured ExpiryIsMinimum", False, 8 if big else 4, tmo)
     quirks = part(quirks, "asbuilt")
@@ -253,6 +257,8 @@ def run(tier, seed, replay):
         jobs["asbuilt/" + q] = ex.submit(tlc, q, EXHIBIT[q], kb, "TtlHonoured", False, 2, tmo)
     inv_g = "" if quirks else "TtlHonoured ExpiryIsMinimum"
     replay_cfgs = part(list(REPLAY[tier].items()), "graphs")
+    if os.environ.get("VERIF_C17_GRAPHS"):                                        # development aid only
+        replay_cfgs = [x for x in replay_cfgs if x[0] in os.environ["VERIF_C17_GRAPHS"].split(",")]
     slow_cfgs = part(UDPSLOW[tier], "slow")
     sim_cfgs = part(SIMULATE[tier], "sim")
     lru_cfgs = part(LRU[tier], "lru")
